@@ -132,6 +132,9 @@ def check_index(sm, label):
         on_disk.update(os.path.normpath(p) for p in disk_files(d.absolute_path))
     if set(seen) != on_disk:
         return f'{label}: index {sorted(set(seen) ^ on_disk)[:3]} differs from the files on disk'
+    why = check_owner(sm, label)
+    if why:
+        return why
     for p, d in seen.items():
         inner = max((x for x in dirs if os.path.commonpath([x.absolute_path, p]) == x.absolute_path), key=lambda x: len(x.absolute_path))
         if inner is not d:
@@ -141,6 +144,16 @@ def check_index(sm, label):
     want_folders = sum(len({it.subdir for it in d.items}) for d in dirs)
     if (folders, files) != (want_folders, want_files):
         return f'{label}: get_stats() == {(folders, files)}, index has {(want_folders, want_files)}'
+    return None
+
+
+def check_owner(sm, label):
+    for d in sm.shared_directories:
+        for it in d.items:
+            if it.shared_directory is not d:
+                return f'{label}: item {it.get_absolute_path()} sits in the items of {d.absolute_path} but is owned by {it.shared_directory.absolute_path}'
+            if not os.path.exists(it.get_absolute_path()) and False:
+                return f'{label}: {it.get_absolute_path()} does not exist'
     return None
 
 
@@ -167,6 +180,12 @@ def check_queries(sm, rnd, label, cap=None):
             if os.environ.get('C07_DEBUG'):
                 import gc
                 x = sorted(got - want, key=lambda i: i.filename)[0]
+                print('OWNER-SHARED?', any(x.shared_directory is d for d in sm.shared_directories), [d.absolute_path for d in sm.shared_directories], 'abs', x.get_absolute_path(), 'exists', os.path.exists(x.get_absolute_path()), 'in-owner-items', x in x.shared_directory.items, file=sys.stderr)
+                from aioslsk.shares.model import SharedDirectory as _SD
+                for o in gc.get_objects():
+                    if isinstance(o, _SD) and any(i is x for i in o.items):
+                        print('HELD-BY-DIR', o.absolute_path, 'shared-now', any(o is d for d in sm.shared_directories), file=sys.stderr)
+                print('sets', [(id(r), len(r), r is got, r is want) for r in gc.get_referrers(x) if isinstance(r, set)], file=sys.stderr)
                 print('LIVE?', x in live, [type(r).__name__ + ':' + repr(r)[:200] for r in gc.get_referrers(x)], file=sys.stderr)
             bad = sorted(i.get_query_path() for i in got - want)[:3]
             return f'{label}: query({q!r}) returns {bad} which do not match (or are not shared)'
@@ -210,6 +229,9 @@ async def main():
                     d = rnd.choice(cand)
                     sd = sm.add_shared_directory(d)
                     shared.append(sd)
+                    why = check_queries(sm, rnd, label + ' (before the scan)') or check_owner(sm, label)
+                    if why:
+                        return True, why, {'seed': SEED, 'round': rno, 'step': step}
                     await sm.scan_directory_files(sd)
                 elif op == 'remove' and shared:
                     sd = shared.pop(rnd.randrange(len(shared)))
@@ -231,7 +253,7 @@ async def main():
                 why = check_queries(sm, rnd, label)
                 if why:
                     return True, why, {'seed': SEED, 'round': rno, 'step': step}
-                if op in ('rescan', 'touch', 'delete', 'create'):
+                if op in ('rescan', 'touch', 'delete', 'create', 'add', 'remove'):
                     why = check_index(sm, label)
                     if why:
                         return True, why, {'seed': SEED, 'round': rno, 'step': step}
